@@ -22,36 +22,67 @@ def name_classes(lm):
     }
 
 
-def build(ctx, tier="quick", constraints=True, set_null=True):
+def build(ctx, tier="quick", constraints=True, set_null=True, normalize_names=False, all_name_styles=False):
     lm = ctx.lexer
     s = Spec("table" if constraints else "core-column", lm, accumulators={"expr", "defcolumn", "table_name"})
     P, N, NM = punct(lm), numbers(lm), name_classes(lm)
-    tname = lm.plain("t", ["t", "tb", "Users", "t_1", "order_items", "Tbl2"])
-    sname = lm.plain("schema", ["s", "db", "My_Schema", "x_1", "analytics", "Zq9"])
-    typ = lm.plain("type", ["int", "varchar", "DECIMAL", "Text", "bigint", "num_9"])
-    other_t = lm.plain("o", ["o", "ot", "Other", "o_1", "ref_table", "Oth2"])
-    other_c = lm.plain("oc", ["x", "oid", "Kee", "k_1", "other_id", "Kc2"])
-    word = lm.plain("w", ["v", "ab", "Now", "w_1", "current_x", "Val2"])
+    _plain_edge = s.edge
+
+    def styled(cls):
+        """the class plus, when all_name_styles, its double-quoted / back-ticked / bracketed variants"""
+        if not all_name_styles or cls.kind != "PLAIN":
+            return [cls]
+        ex = list(cls.exemplars)
+        return [cls,
+                lm.custom(f'"{cls.name}"', [f'"{e}"' for e in ex[:3]] + [f'"{ex[0]} x"'], "DQ"),
+                lm.custom(f"`{cls.name}`", [f"`{e}`" for e in ex[:4]], "BT"),
+                lm.custom(f"[{cls.name}]", [f"[{e}]" for e in ex[:4]], "BR")]
+
+    def name_edge(a, wc, tag, b=None):
+        """edge for an identifier position: every quoting style leads to the same spec state"""
+        b = b or s.new()
+        for c in styled(wc):
+            s.e[a].append((c, tag, b))
+        return b
+    def plain(label, ex):
+        # with normalize_names the action asks len(name) > 2: short names form a class of their own
+        if normalize_names:
+            return lm.plain(label + ">2", [e for e in ex if len(e) > 2])
+        return lm.plain(label, ex)
+    if normalize_names:
+        N = dict(N)
+        N["NUM"] = lm.custom("<n>>2", ["100", "2500", "300"], "NUM")
+        NM["a"] = plain("a", NM["a"].exemplars)
+        NM["b"] = plain("b", NM["b"].exemplars)
+        NM["short"] = lm.plain("short", ["c", "id", "d", "x1", "Ab", "q"])
+    tname = plain("t", ["t", "tb", "Users", "t_1", "order_items", "Tbl2"])
+    sname = plain("schema", ["s", "db", "My_Schema", "x_1", "analytics", "Zq9"])
+    typ = plain("type", ["int", "varchar", "DECIMAL", "Text", "bigint", "num_9"])
+    other_t = plain("o", ["o", "ot", "Other", "o_1", "ref_table", "Oth2"])
+    other_c = plain("oc", ["x", "oid", "Kee", "k_1", "other_id", "Kc2"])
+    word = plain("w", ["v", "ab", "Now", "w_1", "current_x", "Val2"])
     strs = lm.custom("'s'", ["'a'", "'Hello'", "'x y'", "'it_s'", "'1'"], "STR")
-    act = lm.plain("action", ["CASCADE", "cascade", "RESTRICT", "Restrict"])
-    cname = lm.plain("cn", ["pk", "uq_1", "Fk_Name", "ck", "constraint_x", "Cn2"])
+    act = plain("action", ["CASCADE", "cascade", "RESTRICT", "Restrict"])
+    cname = plain("cn", ["pk", "uq_1", "Fk_Name", "ck", "constraint_x", "Cn2"])
 
     # ---- head
     a = s.words(s.start, "head", [("KW", "CREATE"), ("KW", "TABLE")])
     a2 = s.words(a, "head", [("KW", "IF", "ine"), ("KW", "NOT"), ("KW", "EXISTS")], begin=False)
     heads = []
     for st in (a, a2):
-        heads.append(s.edge(st, tname, Tag("head", False, "name")))
-        d = s.edge(st, sname, Tag("head", False, "schema"))
+        heads.append(name_edge(st, tname, Tag("head", False, "name")))
+        d = name_edge(st, sname, Tag("head", False, "schema"))
         d = s.edge(d, P["."], Tag("head", False))
-        heads.append(s.edge(d, tname, Tag("head", False, "name")))
+        heads.append(name_edge(d, tname, Tag("head", False, "name")))
     lp = s.new()
     for h in heads:
         s.edge(h, P["("], Tag("lp", True), lp)
     # ---- a column
     colstart = lp
     O = s.new()            # option loop
-    names = [NM["a"], NM["b"]] + ([NM["dq"], NM["bt"], NM["br"]] if tier == "thorough" else [NM["dq"]])
+    names = [NM["a"], NM["b"]] + ([NM["dq"], NM["bt"], NM["br"]] if (tier == "thorough" or all_name_styles) else [NM["dq"]])
+    if normalize_names:
+        names.append(NM["short"])
     for nm in names:
         n1 = s.edge(colstart, nm, Tag("col", True, "name"))
         t1 = s.edge(n1, typ, Tag("col", False, "type"))
@@ -81,14 +112,14 @@ def build(ctx, tier="quick", constraints=True, set_null=True):
         """REFERENCES [s.]o [(c)] then any sequence of ON DELETE a / ON UPDATE a"""
         r0 = s.words(start, kind, [("KW", "REFERENCES")], begin=False)
         R = s.new()
-        e1 = s.edge(r0, other_t, Tag(kind, False, "ref_table"))
-        d = s.edge(r0, sname, Tag(kind, False, "ref_schema"))
+        e1 = name_edge(r0, other_t, Tag(kind, False, "ref_table"))
+        d = name_edge(r0, sname, Tag(kind, False, "ref_schema"))
         d = s.edge(d, P["."], Tag(kind, False))
-        e2 = s.edge(d, other_t, Tag(kind, False, "ref_table"))
+        e2 = name_edge(d, other_t, Tag(kind, False, "ref_table"))
         for e in (e1, e2):
             s.eps(e, R)
             c = s.edge(e, P["("], Tag(kind, False))
-            c = s.edge(c, other_c, Tag(kind, False, "ref_col"))
+            c = name_edge(c, other_c, Tag(kind, False, "ref_col"))
             s.edge(c, P[")"], Tag(kind, False), R)
         for evt, role in (("DELETE", "on_delete"), ("UPDATE", "on_update")):
             x = s.words(R, kind, [("KW", "ON"), ("KW", evt)], begin=False)
@@ -103,14 +134,14 @@ def build(ctx, tier="quick", constraints=True, set_null=True):
     s.e[O].append((lm.kw("REFERENCES", "upper"), Tag("opt:REF", True), rb))
     s.e[O].append((lm.kw("REFERENCES", "other"), Tag("opt:REF", True), rb))
     R = s.new()
-    e1 = s.edge(rb, other_t, Tag("opt:REF", False, "ref_table"))
-    d = s.edge(rb, sname, Tag("opt:REF", False, "ref_schema"))
+    e1 = name_edge(rb, other_t, Tag("opt:REF", False, "ref_table"))
+    d = name_edge(rb, sname, Tag("opt:REF", False, "ref_schema"))
     d = s.edge(d, P["."], Tag("opt:REF", False))
-    e2 = s.edge(d, other_t, Tag("opt:REF", False, "ref_table"))
+    e2 = name_edge(d, other_t, Tag("opt:REF", False, "ref_table"))
     for e in (e1, e2):
         s.eps(e, R)
         c = s.edge(e, P["("], Tag("opt:REF", False))
-        c = s.edge(c, other_c, Tag("opt:REF", False, "ref_col"))
+        c = name_edge(c, other_c, Tag("opt:REF", False, "ref_col"))
         s.edge(c, P[")"], Tag("opt:REF", False), R)
     for evt, role in (("DELETE", "on_delete"), ("UPDATE", "on_update")):
         x = s.words(R, "opt:REF", [("KW", "ON"), ("KW", evt)], begin=False)
@@ -149,10 +180,10 @@ def build(ctx, tier="quick", constraints=True, set_null=True):
             s.eps(cols(e, "decl:CUQ", "col", k), D)
             e = s.words(sep, "decl:FK", [("KW", "FOREIGN"), ("KW", "KEY")])
             e = cols(e, "decl:FK", "col", k)
-            s.eps(fk_ref(s, lm, e, "decl:FK", k, P, sname, other_t, other_c, act, set_null), D)
+            s.eps(fk_ref(s, lm, e, "decl:FK", k, P, sname, other_t, other_c, act, set_null, name_edge=name_edge), D)
             e = s.words(sep, "decl:CFK", [("KW", "CONSTRAINT"), (cname, "cname"), ("KW", "FOREIGN"), ("KW", "KEY")])
             e = cols(e, "decl:CFK", "col", k)
-            s.eps(fk_ref(s, lm, e, "decl:CFK", k, P, sname, other_t, other_c, act, set_null), D)
+            s.eps(fk_ref(s, lm, e, "decl:CFK", k, P, sname, other_t, other_c, act, set_null, name_edge=name_edge), D)
         gt = lm.custom(">", [">", ">=", "<>"], "OP")
         e = s.words(sep, "decl:CHK", [("KW", "CHECK"), P["("], (NM["a"], "c1"), (gt, "op"), (N["NUM"], "c2"), P[")"]])
         s.eps(e, D)
@@ -160,20 +191,21 @@ def build(ctx, tier="quick", constraints=True, set_null=True):
         s.eps(e, D)
         s.edge(D, P[","], Tag("sep", True), sep)
         s.edge(D, P[")"], Tag("end", True), end)
-    return s, make_oracle(s)
+    return s, make_oracle(s, normalize_names)
 
 
-def fk_ref(s, lm, start, kind, k, P, sname, other_t, other_c, act, set_null):
+def fk_ref(s, lm, start, kind, k, P, sname, other_t, other_c, act, set_null, name_edge=None):
+    name_edge = name_edge or (lambda a, wc, tag, b=None: s.edge(a, wc, tag, b))
     r0 = s.words(start, kind, [("KW", "REFERENCES")], begin=False)
     R = s.new()
-    e1 = s.edge(r0, other_t, Tag(kind, False, "ref_table"))
-    d = s.edge(r0, sname, Tag(kind, False, "ref_schema"))
+    e1 = name_edge(r0, other_t, Tag(kind, False, "ref_table"))
+    d = name_edge(r0, sname, Tag(kind, False, "ref_schema"))
     d = s.edge(d, P["."], Tag(kind, False))
-    e2 = s.edge(d, other_t, Tag(kind, False, "ref_table"))
-    oc2 = lm.plain("oc2", ["y", "pid", "Kay", "k_2", "another_id", "Kd3"])
+    e2 = name_edge(d, other_t, Tag(kind, False, "ref_table"))
+    oc2 = lm.plain("oc2>2", ["pid", "Kay", "k_2", "another_id", "Kd3"])
     for e in (e1, e2):
         c = s.edge(e, P["("], Tag(kind, False))
-        c = s.edge(c, other_c, Tag(kind, False, "ref_col1"))
+        c = name_edge(c, other_c, Tag(kind, False, "ref_col1"))
         if k == 2:
             c = s.edge(c, P[","], Tag(kind, False))
             c = s.edge(c, oc2, Tag(kind, False, "ref_col2"))
@@ -200,7 +232,28 @@ def ref_dict(roles, col_role="ref_col"):
             "on_delete": act("on_delete"), "on_update": act("on_update"), "deferrable_initially": None}
 
 
-def make_oracle(s):
+def strip_delims(v):
+    """what normalize_names=True is documented to do to an identifier: drop its one pair of outer delimiters"""
+    def one(x):
+        if isinstance(x, str) and len(x) > 2 and (x[0] + x[-1]) in ('""', "``", "[]"):
+            return x[1:-1]
+        return x
+    return lift(one, v)
+
+
+class _Stripped(dict):
+    pass
+
+
+def make_oracle(s, normalize_names=False):
+    oracle = _make_oracle(s)
+    if normalize_names:
+        for k, fn in list(oracle.kinds.items()):
+            oracle.kinds[k] = (lambda f: (lambda roles, old: f({r: strip_delims(v) for r, v in roles.items()}, old)))(fn)
+    return oracle
+
+
+def _make_oracle(s):
     def head(roles, old):
         d = {"schema": roles.get("schema"), "table_name": roles["name"], "columns": [], "checks": []}
         if "ine" in roles:
